@@ -5,9 +5,11 @@
      - for the proofs only: the heaps of all moments [g_hs], the indices [g_chg] of the linearization steps, and
        with every completed operation a point [e_pt]:
          2*m+1 = "the step with index m": the fullyLinked step (SFull) or the value write (SWrite) of a Store, the
-                 marking step (RMark on an unmarked victim) of a successful LoadAndDelete: recorded in [p_lp]
+                 fullyLinked step (OFull) of a LoadOrStore(Lazy) that stored, the marking step (RMark on an
+                 unmarked victim) of a successful LoadAndDelete / Delete: recorded in [p_lp]
                  when the step is executed;
-         2*m   = "the state before step m" for a Load and for an unsuccessful LoadAndDelete: COMPUTED when the
+         2*m   = "the state before step m" for a Load, a LoadOrStore(Lazy) that loaded, and an unsuccessful
+                 LoadAndDelete / Delete: COMPUTED when the
                  operation completes, as the latest moment inside the operation at which the specification gives
                  the answer the operation returned ([find_obs] over the recorded heaps). *)
 From VF Require Import Common.Base Common.Hist C04.Spec C04.LazyMap C04.ProofsLazyMap C04.LzmReach C04.LzmLock C04.LzmAbs.
@@ -26,6 +28,8 @@ Definition obs_ok (o : opk) (v : Z) (ok : bool) (h : heap) : bool :=
   | MStore _ _ => false
   | MLoad k => match fm_get k (absmap h) with Some x => ok && (x =? v) | None => negb ok && (v =? 0) end
   | MLoadAndDelete k => match fm_get k (absmap h) with Some _ => false | None => negb ok && (v =? 0) end
+  | MLoadOrStore k _ | MLoadOrStoreLazy k _ => match fm_get k (absmap h) with Some x => ok && (x =? v) | None => false end
+  | MDelete k => match fm_get k (absmap h) with Some _ => false | None => negb ok end
   end.
 
 (* the latest moment m in (lo, lo + d] whose heap satisfies f *)
@@ -36,15 +40,18 @@ Fixpoint find_obs (f : heap -> bool) (hs : list heap) (lo d : nat) : option nat 
   end.
 
 Definition is_mut (o : opk) (ok : bool) : bool :=
-  match o with MStore _ _ => true | MLoadAndDelete _ => ok | MLoad _ => false end.
+  match o with
+  | MStore _ _ => true | MLoadAndDelete _ | MDelete _ => ok | MLoad _ => false
+  | MLoadOrStore _ _ | MLoadOrStoreLazy _ _ => negb ok
+  end.
 
 Definition point (pd : pnd) (v : Z) (ok : bool) (n : nat) (hs : list heap) : nat :=
   if is_mut (p_op pd) ok then match p_lp pd with Some m => 2 * m + 1 | None => 0 end
   else match find_obs (obs_ok (p_op pd) v ok) hs (p_inv pd) (n - p_inv pd) with Some m => 2 * m | None => 0 end.
 
-Definition mk_entry (pd : pnd) (v : Z) (ok : bool) (n : nat) (hs : list heap) : entry :=
+Definition mk_entry (pd : pnd) (calls : nat) (v : Z) (ok : bool) (n : nat) (hs : list heap) : entry :=
   {| e_op := {| Hist.inv := N.of_nat (p_inv pd); Hist.resp := N.of_nat n;
-                Hist.call := call_of (p_op pd); Hist.ret := ret_of (p_op pd) v ok |};
+                Hist.call := call_of (p_op pd); Hist.ret := ret_of (p_op pd) calls v ok |};
      e_pt := point pd v ok n hs |}.
 
 (* what the acting thread does to its own pending record *)
@@ -73,7 +80,7 @@ Definition gstep (g : gst) (t : nat) : gst :=
   let fin := match fin_res s t, nth t cur1 None with Some r, Some pd => Some (r, pd) | _, _ => None end in
   {| g_s := s'; g_n := Datatypes.S n;
      g_cur := match fin with Some _ => upd cur1 t None | None => cur1 end;
-     g_log := match fin with Some (r, pd) => g_log g ++ [mk_entry pd (fst r) (snd r) n (g_hs g)] | None => g_log g end;
+     g_log := match fin with Some (r, pd) => g_log g ++ [mk_entry pd (calls_of (pc_of s t)) (fst r) (snd r) n (g_hs g)] | None => g_log g end;
      g_chg := chg';
      g_hs := g_hs g ++ [hp s'] |}.
 
@@ -154,7 +161,7 @@ Proof.
     assert (O1 : forall u, u <> t -> nth u cur1 None = nth u (g_cur g) None).
     { intros u N. unfold cur1. destruct (lin_pc _ _); [apply nth_upd_other; congruence|reflexivity]. }
     rewrite E1, Eq.
-    destruct (pc_of (step true s t) t) as [|v ok| | | | | | | | | | | | | | | | | | | | | | | | | | |] eqn:PC'.
+    destruct (pc_of (step true s t) t) as [|v ok| | | | | | | | | | | | | | | | | | | | | | | | | | | | | | | | | | | | |] eqn:PC'.
     all: split; cbn [g_s g_n g_cur g_log ist clock hlog pend fst snd]; auto;
       try (now rewrite ?upd_length, L1, step_ths_length); try (now rewrite step_ths_length).
     all: try (intros u Ru; destruct (Nat.eq_dec u t) as [->|N];
